@@ -58,6 +58,8 @@ pub trait Exec {
 /// Observer of everything n2 reports about the build.
 pub trait Observer {
     fn update(&mut self, _counts: [usize; 6]) {}
+    /// The total n2 itself derives from the counts (what its progress display shows as "N/total").
+    fn update_total(&mut self, _total: usize) {}
     fn task_started(&mut self, _id: usize) {}
     fn task_output(&mut self, _id: usize, _line: &[u8]) {}
     fn task_finished(&mut self, _id: usize, _outcome: Outcome, _output: &[u8]) {}
@@ -266,6 +268,7 @@ impl crate::progress::Progress for ProgressShim {
             counts.get(BuildState::Failed),
         ];
         with_obs(|p| p.update(v));
+        with_obs(|p| p.update_total(counts.total()));
     }
     fn task_started(&self, id: BuildId, _build: &Build) {
         with_obs(|p| p.task_started(id.index()));
